@@ -1,5 +1,5 @@
 """C10 - ungrouping grouped notes restores the original note stream (structural clauses)."""
-from ..rules import notes, records, grouping, baseline
+from ..rules import notes, records, grouping, baseline, state
 
 EXPLANATION = (
     "Static rule checking of ungroup_notes: R-REBUILD the head Note copies every field of the NoteWithTail, the tail Note takes "
@@ -48,6 +48,10 @@ def sweep(ctx):
 
 sweep.thorough_only = True
 
+def c_state(ctx):
+    state.shared_state(ctx, ['simfile.notes.group:group_notes', 'simfile.notes.group:ungroup_notes'], 'grouping and ungrouping one stream depends on that stream and the options only')
+
+
 def c_api(ctx):
     baseline.surface(ctx, "C10: documented surface", modules=['simfile.notes.group', 'simfile.notes'])
 
@@ -58,5 +62,6 @@ CLAUSES = [
     ("C10.4", "the heap order is the note position order (R-CMP, shared with C07)", c4),
     ("C10.5", "the forward direction (group_notes): filter before joining, nothing lost, joined head keeps its fields (shared with C09)", c5),
     ("C10.sweep", "package-wide census of record constructions and enum dispatches (thorough)", sweep),
+    ("C10.state", "no process-wide state behind grouping / counting: two streams being grouped at the same time do not see each other (R-STATE)", c_state),
     ("C10.api", "public surface: signatures and defaults, constants, enumerations, blank templates, base classes as confirmed (R-API)", c_api),
 ]
